@@ -30,7 +30,12 @@ Labels ==
   IN (IF \E i \in DOMAIN E.gerrs : E.gerrs[i] # "" THEN {"C13-generator-error"} ELSE {})
      \cup (IF wrong # {} THEN {"C13-result"} ELSE {})
      \cup (IF \E i \in DOMAIN E.rests : E.rests[i] # E.rest0 THEN {"C13-frame"} ELSE {})
-     \cup (IF \E i \in DOMAIN R : R[i].mord # R[1].mord \/ R[i] # R[1] THEN {"C13-determinism"} ELSE {})
+     \* repetitions 1, 3, .. start from the original's mounts listed parents-first, 2, 4, .. children-first
+     \cup (IF \E i \in DOMAIN R : R[i] # R[IF i % 2 = 1 THEN 1 ELSE 2] THEN {"C13-determinism"} ELSE {})
+     \* once a mount adjustment was made the order no longer depends on the order the runtime listed its mounts in
+     \cup (IF Len(E.adj.mnt) > 0 /\ \E i \in DOMAIN R : R[i].mord # R[1].mord THEN {"C13-mount-order"} ELSE {})
+     \* without one, the runtime's order is left alone
+     \cup (IF Len(E.adj.mnt) = 0 /\ \E i \in DOMAIN R : R[i].mord # E.ords[i] THEN {"C13-frame"} ELSE {})
      \cup (IF Len(E.adj.mnt) > 0 /\ \E i \in DOMAIN R : ~ParentsFirst(R[i].mord) THEN {"C13-mount-order"} ELSE {})
      \cup (IF \E i \in DOMAIN R : SeqRange(R[i].mord) # DOMAIN R[i].mnt \/ Len(R[i].mord) # Cardinality(DOMAIN R[i].mnt)
            THEN {"C13-mount-dup"} ELSE {})
